@@ -57,3 +57,138 @@ proof fn prop_c01_exact_fields(dt: UtcDateTime, t: int, y: int, m: int, d: int, 
     }
     lemma_cum(12, leap(y));
 }
+
+// ---------------------------------------------------------------------------------------------
+// C02
+
+spec fn lex_lt(y1: int, m1: int, d1: int, h1: int, mi1: int, s1: int, y2: int, m2: int, d2: int, h2: int, mi2: int, s2: int) -> bool {
+    y1 < y2 || (y1 == y2 && (m1 < m2 || (m1 == m2 && (d1 < d2 || (d1 == d2 && (h1 < h2 || (h1 == h2 && (mi1 < mi2 || (mi1 == mi2 && s1 < s2)))))))))
+}
+
+// among date-times with seconds < 60, a later calendar date gives a strictly larger Unix time
+proof fn prop_c02_strict_mono(y1: int, m1: int, d1: int, h1: int, mi1: int, s1: int, y2: int, m2: int, d2: int, h2: int, mi2: int, s2: int)
+    requires
+        valid_date(y1, m1, d1),
+        valid_date(y2, m2, d2),
+        valid_time(h1, mi1, s1),
+        valid_time(h2, mi2, s2),
+        lex_lt(y1, m1, d1, h1, mi1, s1, y2, m2, d2, h2, mi2, s2),
+    ensures
+        secs(y1, m1, d1, h1, mi1, s1) < secs(y2, m2, d2, h2, mi2, s2),
+{
+    lemma_secs_in_year(y1, m1, d1, h1, mi1, s1);
+    lemma_secs_in_year(y2, m2, d2, h2, mi2, s2);
+    if y1 < y2 {
+        lemma_dby_mono(y1 + 1, y2);
+    } else if m1 < m2 {
+        lemma_cum_mono(m1, m2, leap(y1));
+    }
+}
+
+// second 60 denotes second 0 of the next minute
+proof fn prop_c02_second_60(y: int, m: int, d: int, h: int, mi: int)
+    ensures
+        secs(y, m, d, h, mi, 60) == secs(y, m, d, h, mi + 1, 0),
+        secs(y, m, d, h, 59, 60) == secs(y, m, d, h + 1, 0, 0),
+        secs(y, m, d, h, mi, 60) == secs(y, m, d, h, mi, 59) + 1,
+{
+}
+
+// composition witnesses: verified code that calls the real functions through their contracts only
+
+// Unix -> calendar -> Unix is the identity
+fn compose_c02_unix_cal_unix(t: i64, ns: u32)
+{
+    match UtcDateTime::from_timespec(t, ns) {
+        Ok(dt) => {
+            let u = dt.unix_time();
+            assert(u == t);
+        },
+        Err(_) => {},
+    }
+}
+
+// calendar -> Unix -> calendar is the identity for seconds < 60 (and never refused on the way back)
+fn compose_c02_cal_unix_cal(y: i32, m: u8, d: u8, h: u8, mi: u8, s: u8, ns: u32)
+{
+    match UtcDateTime::new(y, m, d, h, mi, s, ns) {
+        Ok(dt) => {
+            if s < 60 {
+                let t = dt.unix_time();
+                match UtcDateTime::from_timespec(t, ns) {
+                    Ok(dt2) => {
+                        proof {
+                            lemma_secs_injective(dt.year as int, dt.month as int, dt.month_day as int, dt.hour as int, dt.minute as int, dt.second as int,
+                                dt2.year as int, dt2.month as int, dt2.month_day as int, dt2.hour as int, dt2.minute as int, dt2.second as int);
+                        }
+                        assert(dt2 == dt);
+                    },
+                    Err(_) => {
+                        assert(false);
+                    },
+                }
+            }
+        },
+        Err(_) => {},
+    }
+}
+
+// ---------------------------------------------------------------------------------------------
+// C16
+
+// split and recombine is the identity; the nanosecond part is in [0, 1e9)
+fn compose_c16_split_recombine(n: i128)
+{
+    match total_nanoseconds_to_timespec(n) {
+        Ok((s, ns)) => {
+            let back = nanoseconds_since_unix_epoch(s, ns);
+            assert(back == n);
+            assert(ns < 1000000000);
+        },
+        Err(_) => {},
+    }
+}
+
+// recombine and split is the identity for nanoseconds < 1e9
+fn compose_c16_recombine_split(s: i64, ns: u32)
+    requires
+        ns < 1000000000,
+{
+    let n = nanoseconds_since_unix_epoch(s, ns);
+    match total_nanoseconds_to_timespec(n) {
+        Ok((s2, ns2)) => {
+            assert(s2 == s && ns2 == ns);
+        },
+        Err(_) => {
+            assert(false);
+        },
+    }
+}
+
+// a UTC date-time built from total nanoseconds equals the one built from the (seconds, nanoseconds) pair
+fn compose_c16_utc_same(n: i128)
+{
+    match total_nanoseconds_to_timespec(n) {
+        Ok((s, ns)) => {
+            let a = UtcDateTime::from_total_nanoseconds(n);
+            let b = UtcDateTime::from_timespec(s, ns);
+            match (a, b) {
+                (Ok(x), Ok(y)) => {
+                    proof {
+                        lemma_secs_injective(x.year as int, x.month as int, x.month_day as int, x.hour as int, x.minute as int, x.second as int,
+                            y.year as int, y.month as int, y.month_day as int, y.hour as int, y.minute as int, y.second as int);
+                    }
+                    assert(x == y);
+                },
+                (Err(_), Err(_)) => {},
+                _ => {
+                    assert(false);
+                },
+            }
+        },
+        Err(_) => {
+            let a = UtcDateTime::from_total_nanoseconds(n);
+            assert(a is Err);
+        },
+    }
+}
